@@ -5,3 +5,30 @@ GROUPS = [
       functions=['encode_size'], what='parse_size(encode_size(s)) == s for 0<=s<=1275 (loop-free, real bodies)', timeout=120),
 ]
 META = {}
+
+# opus_packet_parse_impl: the contract is enforced per syntactic sub-case of (TOC code, len>=2, count byte flags,
+# framing); group parse_cases_exhaustive proves that the sub-cases cover every input.
+_PC = {
+ 'c0':      ('(len<1 || ((data)[0]&3)==0)', 3, []),
+ 'c1':      ('(len>=1 && ((data)[0]&3)==1)', 3, []),
+ 'c2':      ('(len>=1 && ((data)[0]&3)==2)', 3, []),
+ 'c3short': ('(len==1 && ((data)[0]&3)==3)', 2, []),
+}
+for pad in (0, 1):
+    for vbr in (0, 1):
+        for sd in (0, 1):
+            _PC['c3_p%d_v%d_s%d' % (pad, vbr, sd)] = (
+                '(len>=2 && ((data)[0]&3)==3 && (((data)[1]&0x40)!=0)==%d && (((data)[1]&0x80)!=0)==%d && ((sd)!=0)==%d)' % (pad, vbr, sd),
+                49, (['-DVERIF_PARSE_LC_PAD'] if pad else []) + (['-DVERIF_PARSE_LC_VBR'] if vbr else []))
+PARSE_CASES = {k: v[0] for k, v in _PC.items()}
+for _k, (_v, _u, _d) in _PC.items():
+    GROUPS.append(dict(name='parse_impl_' + _k, cls='P', tu='C06_parse_impl.c', entry='h_parse_impl',
+        enforce=['opus_packet_parse_impl'], unwind=_u, timeout=900,
+        defines=['-DVERIF_PARSE_CASE(data,len,sd)=' + _v] + _d,
+        what='opus_packet_parse_impl contract (E1-E9, assigns, loop invariants, no abort) for sub-case ' + _k + ', len unbounded'))
+
+for _k, (_v, _u, _d) in _PC.items():
+    GROUPS.append(dict(name='parse_h_' + _k, cls='P', tu='C06_parse_h.c', entry='h_parse_h', canary='real',
+        unwind=_u, timeout=900, expect_canaries=2, functions=['opus_packet_parse_impl'],
+        defines=['-DVERIF_PARSE_CASE(data,len,sd)=' + _v] + _d,
+        what='opus_packet_parse_impl clauses E2-E9 asserted after a direct call (H style), sub-case ' + _k + ', len unbounded'))
